@@ -1709,10 +1709,22 @@ BTree_maxminKey(BTree *self, PyObject *args, int min)
             Py_DECREF(bucket);
             return NULL;
         }
-        assert(bucket->len);
         offset = bucket->len - 1;
     }
 
+    if (offset < 0 || offset >= bucket->len)
+    {
+        /* An empty bucket linked into a non-empty tree: a damaged tree, or
+         * one looked at while it is half-way through an abort (some of its
+         * nodes invalidated, others not yet).  Report it rather than read
+         * keys[] of an empty bucket (NULL).
+         */
+        PER_UNUSE(bucket);
+        Py_DECREF(bucket);
+        PyErr_SetString(PyExc_RuntimeError,
+                        "empty bucket in a non-empty tree");
+        return NULL;
+    }
     COPY_KEY_TO_OBJECT(key, bucket->keys[offset]);
     PER_UNUSE(bucket);
     Py_DECREF(bucket);
